@@ -364,6 +364,11 @@ func (c *Collection) PullID(ctx context.Context, id string, opts ...ReadOption) 
 func (c *Collection) onUpdate(ctx context.Context, config *ReadRequest) (<-chan any, []idItem) {
 	var res []idItem
 	if !config.UpdatesOnly {
+		// No write may be between its commit and its publication while the snapshot is taken and the listener
+		// registered: its change would be both in the snapshot and sent to the listener, and a lossy subscriber
+		// merging that duplicate ADD with a later REMOVE would never learn that the item has gone.
+		c.pubMu.Lock()
+		defer c.pubMu.Unlock()
 		c.mu.RLock()
 		defer c.mu.RUnlock()
 		res = c.itemSlice(config)
